@@ -35,11 +35,40 @@ pub fn check(run: &Run) -> (u64, u64) {
         r[i] = true;
         comps.push((format!("castle-{i}"), zobrist::hash(&game(empty, Player::White, r, None)).0 ^ base));
     }
+    // en-passant components. The 16 targets that occur in legal positions (third and sixth rank) are read from a
+    // genuine en-passant situation (pushed pawn, capturer beside it, both kings) as key(with target) ^ key(without)
+    // ^ no-en-passant word. The other 48 are never used by a legal position; they are read on an empty board where
+    // the constructor allows it, and count as unreadable (no verdict) if the implementation normalises such a
+    // target away or refuses it.
+    let mut unreadable = 0u64;
     for s in 0..64u8 {
-        comps.push((format!("ep-{}", Square::from_index(s)), zobrist::hash(&game(empty, Player::White, [false; 4], Some(Square::from_index(s)))).0));
+        let (f, r) = (s % 8, s / 8);
+        if r == 2 || r == 5 {
+            let white_captures = r == 5;
+            let mut sq = empty;
+            let prank = if white_captures { 4 } else { 3 };
+            let cf = if f > 0 { f - 1 } else { f + 1 };
+            sq[(prank * 8 + f) as usize] = Some(Piece::new(if white_captures { Player::Black } else { Player::White }, PieceKind::Pawn));
+            sq[(prank * 8 + cf) as usize] = Some(Piece::new(if white_captures { Player::White } else { Player::Black }, PieceKind::Pawn));
+            sq[0] = Some(Piece::new(Player::White, PieceKind::King));
+            sq[63] = Some(Piece::new(Player::Black, PieceKind::King));
+            let side_to_move = if white_captures { Player::White } else { Player::Black };
+            let r2 = crate::util::catch(|| (zobrist::hash(&game(sq, side_to_move, [false; 4], Some(Square::from_index(s)))).0, zobrist::hash(&game(sq, side_to_move, [false; 4], None)).0));
+            match r2 {
+                Ok((with, without)) => comps.push((format!("ep-{}", Square::from_index(s)), with ^ without ^ base)),
+                Err(e) => run.machinery_error(format!("en-passant component of {} cannot be read from a legal en-passant position: {e}", Square::from_index(s))),
+            }
+        } else {
+            match crate::util::catch(|| zobrist::hash(&game(empty, Player::White, [false; 4], Some(Square::from_index(s)))).0) {
+                Ok(h) if h != base => comps.push((format!("ep-{}", Square::from_index(s)), h)),
+                _ => unreadable += 1,
+            }
+        }
     }
-    comps.push(("side".into(), zobrist::hash(&game(empty, Player::Black, [false; 4], None)).0 ^ base));
-    if comps.len() != 838 {
+    run.count("key_components_unreadable_outside_legal_positions", unreadable);
+    let side = zobrist::hash(&game(empty, Player::Black, [false; 4], None)).0 ^ base;
+    comps.push(("side".into(), side));
+    if comps.len() as u64 + unreadable != 838 {
         run.machinery_error(format!("expected 838 key components, recovered {}", comps.len()));
     }
     let mut pairs = 0u64;
